@@ -475,7 +475,9 @@ func (vc *VC) setHeap(st *State, key string, h Term) {
 	st.heaps[key] = h
 	if hasPrev {
 		vc.linkHeaps(key, h, prev)
-		vc.linkHeapsBack(key, h, prev)
+		if vc.Contract != nil && vc.Contract.StoreLinks {
+			vc.linkHeapsBack(key, h, prev)
+		}
 	}
 }
 
